@@ -15,6 +15,8 @@ CONSUMED by Val/ToPy.v
   vt_target_builtins                         routing.TargetRegistry.BUILTINS
   vt_builtin_schemas                         loader.BUILTIN_SCHEMA_DEFINITIONS: (name, has "META", required, [(field, type, values)])
   vt_meta_type_map                           the type_map of Validator._validate_type
+  vt_fm_blank_is_absent, vt_fm_absent_code,  validate_frontmatter: whether a whitespace-only block takes the ABSENT branch, and what that
+  vt_fm_absent_prefix                        branch reports (code, field_path prefix) -- the test text and the branch source are pinned
 PINNED (Val/Pins_Validate.v)
   vt_topy_dispatch / vt_topy_default         the isinstance chain of Validator._to_python_value: (class, returned expression) in order
   vt_src_*                                   normalised source (ast.unparse, docstrings removed) of Validator.validate, _validate_meta,
@@ -350,6 +352,37 @@ def _meta_type_map(fn):
     raise TranslateError("_validate_type: type_map not found")
 
 
+def _fm_absent_branch(fn):
+    """validate_frontmatter: the branch that treats the frontmatter as ABSENT (reports each required field and returns).
+    -> (test source, blank-counts-as-absent?, code literal, field_path prefix, source of the whole branch)"""
+    body = _strip_doc(fn)
+    hits = [st for st in body if isinstance(st, ast.If) and any(isinstance(n, ast.Constant) and n.value == "E_FM_REQUIRED" for n in ast.walk(st))
+            and st.body and isinstance(st.body[-1], ast.Return)]
+    need(len(hits) == 1, f"validate_frontmatter: absent branch not found exactly once ({len(hits)})")
+    br = hits[0]
+    need(not br.orelse and ast.unparse(br.body[-1]) == "return errors", "validate_frontmatter: absent branch shape changed")
+    test = ast.unparse(br.test)
+    known = {"raw_frontmatter is None": False, "raw_frontmatter is None or not raw_frontmatter.strip()": True}
+    need(test in known, f"validate_frontmatter: absent test not understood: {test}")
+    # it must come before any YAML parsing
+    idx = body.index(br)
+    for st in body[:idx]:
+        need(not any(isinstance(n, ast.Attribute) and n.attr == "safe_load" for n in ast.walk(st)), "validate_frontmatter: YAML parsed before the absent test")
+    loops = [st for st in br.body if isinstance(st, ast.For)]
+    need(len(loops) == 1 and ast.unparse(loops[0].iter) == "schema.frontmatter.items()" and len(br.body) == 2, "validate_frontmatter: absent branch body changed")
+    inner = loops[0].body
+    need(len(inner) == 1 and isinstance(inner[0], ast.If) and ast.unparse(inner[0].test) == "field_def.required" and not inner[0].orelse,
+         "validate_frontmatter: absent branch reports something else than the required fields")
+    calls = [n for n in ast.walk(inner[0]) if isinstance(n, ast.Call) and ast.unparse(n.func) == "ValidationError"]
+    need(len(calls) == 1, "validate_frontmatter: absent branch error constructor")
+    kw = {k.arg: k.value for k in calls[0].keywords}
+    need(isinstance(kw.get("code"), ast.Constant) and isinstance(kw["code"].value, str), "validate_frontmatter: absent code literal")
+    fp = kw.get("field_path")
+    need(isinstance(fp, ast.JoinedStr) and len(fp.values) == 2 and isinstance(fp.values[0], ast.Constant)
+         and isinstance(fp.values[1], ast.FormattedValue) and ast.unparse(fp.values[1].value) == "field_name", "validate_frontmatter: absent field_path shape")
+    return test, known[test], kw["code"].value, fp.values[0].value, ast.unparse(br)
+
+
 def generate(src):
     vmod = parse_file(src / "mcp" / "validate.py")
     ex = find_def(vmod, "execute", cls="ValidateTool")
@@ -395,6 +428,7 @@ def generate(src):
         "count_literal_zones": _src(find_def(cmod, "_count_literal_zones")),
     }
     tmap = _meta_type_map(find_def(cmod, "_validate_type", cls="Validator"))
+    fm_test, fm_blank, fm_code, fm_prefix, fm_src = _fm_absent_branch(find_def(cmod, "validate_frontmatter"))
     # ---- core/routing.py, core/schema_extractor.py
     rmod = parse_file(src / "core" / "routing.py")
     rcls = [n for n in rmod.body if isinstance(n, ast.ClassDef) and n.name == "TargetRegistry"]
@@ -463,6 +497,13 @@ def generate(src):
                          for n, h, r, fs in bschemas], "(list N * bool * list (list N) * list (list N * list N * list (list N)))") + ".\n")
     out.append("Definition vt_meta_type_map : list (list N * list N) :=\n  " +
                coq_list([f"({coq_str(k)}, {coq_str(v)})" for k, v in tmap], "(list N * list N)") + ".\n")
+    out.append("(* validate_frontmatter: the ABSENT branch (each required field -> code, prefix ++ name; return).  Its test, whether a\n"
+               "   whitespace-only block (`not raw_frontmatter.strip()`) takes it too, the code literal and the field_path prefix *)\n")
+    out.append(f"Definition vt_fm_absent_test : list N := {coq_str(fm_test)}.\n")
+    out.append(f"Definition vt_fm_blank_is_absent : bool := {b(fm_blank)}.\n")
+    out.append(f"Definition vt_fm_absent_code : list N := {coq_str(fm_code)}.\n")
+    out.append(f"Definition vt_fm_absent_prefix : list N := {coq_str(fm_prefix)}.\n")
+    out.append(f"Definition vt_src_fm_absent_branch : list N := {coq_str(fm_src)}.\n")
     for k, v in srcs.items():
         out.append(f"Definition vt_src_{k} : list N := {coq_str(v)}.\n")
     return {"ValidateGen.v": "".join(out)}
